@@ -13,6 +13,7 @@ import (
 	"fmt"
 	"math/big"
 	"runtime"
+	"strings"
 	"sync"
 	"testing"
 
@@ -225,7 +226,13 @@ func TestC19_RaceFree(t *testing.T) {
 					if short {
 						l[(ki+1)%nk] = w.sigs[(ki+1)%nk][mi][:47] // a short signature: that index is reported false
 					}
+					before := append([]crypto.Signature{}, l...)
 					res, err := crypto.BatchVerifyBLSSignaturesOneMessage(w.pks, l, w.msgs[mi], w.shared)
+					for i := range l { // the caller's list of signatures is an argument too: same elements, same lengths
+						if len(l[i]) != len(before[i]) || (len(l[i]) > 0 && &l[i][0] != &before[i][0]) {
+							return fmt.Sprintf("ARGUMENT-MODIFIED: element %d of the signature list handed to BatchVerifyBLSSignaturesOneMessage was replaced (%d bytes, was %d bytes); result %v %v", i, len(l[i]), len(before[i]), res, err)
+						}
+					}
 					return fmt.Sprintf("%v %v", res, err)
 				}}
 			case 9:
@@ -272,6 +279,9 @@ func TestC19_RaceFree(t *testing.T) {
 				c := mk("c")
 				prog[gi] = append(prog[gi], c)
 				want[gi] = append(want[gi], c.run(solo)) // the result of the same call run alone
+				if w := want[gi][len(want[gi])-1]; strings.HasPrefix(w, "ARGUMENT-MODIFIED") {
+					g.Fatalf("%s (run alone): %s", c.name, w)
+				}
 				if c.name != "ECDSA Sign (per-goroutine hasher)" && c.name != "ECDSA Verify (per-goroutine hasher)" {
 					sharedUsers++
 				}
